@@ -5,8 +5,11 @@ package main
 import (
 	"fmt"
 	"go/token"
+	"go/types"
 	"sort"
 	"strings"
+
+	"golang.org/x/tools/go/ssa"
 )
 
 func init() {
@@ -45,8 +48,9 @@ func compKind(t *Term) string {
 			return fmt.Sprintf("fixed%d", hi-lo)
 		}
 		return "bytes"
-	case t.Op == "call" && strings.HasSuffix(t.Name, ".fourBytesBE"):
-		return "fixed4"
+	case t.Op == "call" && fixedWidthFns[t.Name] > 0:
+		// a contract helper whose every result is the full slice of one make([]byte, K)
+		return fmt.Sprintf("fixed%d", fixedWidthFns[t.Name])
 	}
 	return "bytes"
 }
@@ -289,7 +293,7 @@ func runC20(cx *CheckCtx) {
 			okG := pa.holdsAt(put.In, pa.litW(pub))
 			okM := false
 			for _, f := range pa.unitFactsRaw(put.In) {
-				if f.kind == KB && f.pos && f.A.Op == "ret" && f.A.Name == cnrPkg+".isStorageNode" {
+				if f.kind == KB && f.pos && f.A.Op == "ret" && f.A.Name == fq(containerIsStorageNodeFn(cx)) {
 					in := tb.insts[f.A.Inst]
 					if cs := pa.siteIdx[siteKey{in.ctx, in.ins}]; cs != nil && len(cs.Args) == 2 && cs.Args[1] == pub {
 						okM = true
@@ -310,7 +314,7 @@ func runC20(cx *CheckCtx) {
 			cx.decide(okDelta, "cleanup", "container.updateEstimations/delta", "removes exactly when epoch − old > 3", "the per-node cleanup does not remove exactly the estimations older than 3 epochs", del.Where(w))
 		}
 	}
-	if fn := cx.pkgFunc(cnrPkg, "isStorageNode"); fn != nil {
+	if fn := containerIsStorageNodeFn(cx); fn != nil {
 		a := cx.analyze(&Query{Name: "std", Root: fn})
 		ok := false
 		for _, s := range a.Sites(func(s *Site) bool { return s.Callee == "contract.Call" }) {
@@ -341,7 +345,17 @@ func runC20(cx *CheckCtx) {
 		}
 		cx.decide(ok && okT, "gate", "container.isStorageNode", "membership in Netmap.snapshot(1): true only after an equal node key was found", "isStorageNode does not test membership of the key in the previous epoch's network map", w.pos(fn.Pos()))
 	}
-	if fn := cx.pkgFunc(cnrPkg, "cleanupContainers"); fn != nil {
+	var cleanupFn *ssa.Function
+	if m := cx.method("container", "NewEpoch"); m != nil {
+		// the global cleanup helper: the function holding the delete of scanned 'cnr' keys reached from the tick
+		cleanupFn = siteFunc(cx.run(m), func(s *Site) bool {
+			return s.Effect == "delete" && s.Args[1].Op == "iterval" && s.Args[1].Args[0].Op == "find" && keyFamily(s.Args[1].Args[0].Args[0]) == "cnr"
+		})
+		if cleanupFn == nil {
+			cx.violated("cleanup", "container.cleanupContainers", "the epoch tick no longer removes outdated size estimations", w.pos(m.Fn.Pos()))
+		}
+	}
+	if fn := cleanupFn; fn != nil && len(fn.Params) == 2 {
 		a := cx.analyze(&Query{Name: "std", Root: fn})
 		tb := a.tb
 		var del *Site
@@ -355,7 +369,7 @@ func runC20(cx *CheckCtx) {
 		if ok {
 			k := del.Args[1]
 			n := tb.mk("toint", "", 0, tb.mk("slice", "", 0, k, tb.constInt(3), tb.binop(token.SUB, tb.mk("len", "", 0, k), tb.constInt(42), intType)))
-			gap := tb.binop(token.SUB, tb.mk("param", "1:epoch", 0), n, intType)
+			gap := tb.binop(token.SUB, fnParam(tb, fn, 1), n, intType)
 			okDelta = a.holdsAt(del.In, -a.litLtC(gap, 5)) && !a.holdsAt(del.In, -a.litLtC(gap, 6))
 		}
 		cx.decide(ok && okDelta, "cleanup", "container.cleanupContainers", "removes exactly the scanned estimations with epoch − e > 4, e decoded from key[3 : len−32−10]", "the global cleanup does not remove exactly the estimations older than 4 epochs (or decodes the epoch from other bytes than the putter wrote)", w.pos(fn.Pos()))
@@ -472,3 +486,14 @@ func runC20(cx *CheckCtx) {
 	}
 }
 
+// containerIsStorageNodeFn: the membership predicate of PutContainerSize — the
+// one bool-valued helper of the container contract that calls another contract itself.
+func containerIsStorageNodeFn(cx *CheckCtx) *ssa.Function {
+	return cx.locate(cnrPkg, "isStorageNode", "returns a bool and calls snapshot of another contract itself", func(f *ssa.Function) bool {
+		r := f.Signature.Results()
+		if r.Len() != 1 || !types.Identical(r.At(0).Type().Underlying(), types.Typ[types.Bool]) {
+			return false
+		}
+		return callsWithConstArg(f, "contract.Call", 1, "snapshot")
+	})
+}
